@@ -63,12 +63,26 @@ func fqTok(v *fpb.Value, strs map[string]int64) int64 {
 			strs[x.StringValue.Value] = int64(len(strs) + 1)
 		}
 		return strs[x.StringValue.Value]
+	case *fpb.Value_StringListValue:
+		return fqListTok(x.StringListValue.Value, strs)
 	case *fpb.Value_Sync:
 		return int64(x.Sync)
 	case *fpb.Value_Delete:
 		return 7
 	}
 	return -99
+}
+
+// fqListTok encodes a list of strings as the decimal number whose digits are the strings' ids (ids are 1..9).
+func fqListTok(l []string, strs map[string]int64) int64 {
+	t := int64(0)
+	for _, e := range l {
+		if _, ok := strs[e]; !ok {
+			strs[e] = int64(len(strs) + 1)
+		}
+		t = t*10 + strs[e]
+	}
+	return t
 }
 
 func genFqConfig(r *rand.Rand, strs map[string]int64) ([]*fpb.Value, []fqVal, int64) {
@@ -93,7 +107,7 @@ func genFqConfig(r *rand.Rand, strs map[string]int64) ([]*fpb.Value, []fqVal, in
 			}
 		}
 		rec := fqVal{ID: id, Kind: "const", Ts: ts, Dmin: dmin, Dmax: dmax, Repeat: rep, Opts: []int64{}, Pos: 1}
-		switch r.Intn(10) {
+		switch r.Intn(11) {
 		case 0: // int constant
 			v.Value = &fpb.Value_IntValue{IntValue: &fpb.IntValue{Value: int64(r.Intn(20))}}
 		case 1, 2: // int range, with or without deltas
@@ -181,6 +195,21 @@ func genFqConfig(r *rand.Rand, strs map[string]int64) ([]*fpb.Value, []fqVal, in
 			}
 		case 8:
 			v.Value = &fpb.Value_Delete{Delete: &fpb.DeleteValue{}}
+		case 9: // string list (leaf-list): a random sub-list of the options, or the options rotating
+			all := []string{"a", "b", "c", "d"}
+			r.Shuffle(len(all), func(i, j int) { all[i], all[j] = all[j], all[i] })
+			opts := all[:1+r.Intn(4)] // distinct
+			rnd := r.Intn(2) == 0
+			init := append([]string{}, opts[:r.Intn(len(opts)+1)]...)
+			v.Value = &fpb.Value_StringListValue{StringListValue: &fpb.StringListValue{Value: init,
+				Distribution: &fpb.StringListValue_List{List: &fpb.StringList{Options: append([]string{}, opts...), Random: rnd}}}}
+			rec.Kind, rec.Random = "sublist", rnd
+			for _, o := range opts {
+				if _, ok := strs[o]; !ok {
+					strs[o] = int64(len(strs) + 1)
+				}
+				rec.Opts = append(rec.Opts, strs[o])
+			}
 		default:
 			v.Value = &fpb.Value_StringValue{StringValue: &fpb.StringValue{Value: "const"}}
 		}
@@ -293,6 +322,12 @@ func fqAgentRun(vals []*fpb.Value, seed int64, limit int, strs map[string]int64)
 						strs[x.StringVal] = int64(len(strs) + 1)
 					}
 					tok = strs[x.StringVal]
+				case *gpb.TypedValue_LeaflistVal:
+					l := []string{}
+					for _, e := range x.LeaflistVal.GetElement() {
+						l = append(l, e.GetStringVal())
+					}
+					tok = fqListTok(l, strs)
 				}
 				out = append(out, fqEm{strings.Join(u.GetPath().GetElement(), "/"), n.GetTimestamp(), tok, -1})
 			}
